@@ -452,6 +452,45 @@ def make_angle_aux_radius():
     return body
 
 
+def make_angle_prior(kind):
+    """Angle with a prime prior: prime prior = original prior / Jacobian (here exactly, constant 0)."""
+    def body(ctx):
+        from nessai.reparameterisations.angle import Angle
+        snp = _snp(ctx)
+        pi = _pi(ctx)
+        if kind == "sine":
+            rp = Angle(parameters=["a"], prior_bounds={"a": [0.0, pi]}, scale=1.0, prior="sine")
+            hi = pi
+        else:
+            rp = Angle(parameters=["a"], prior_bounds={"a": [0.0, 2 * pi]}, scale=1.0, prior="uniform")
+            hi = 2 * pi
+        rp.chi = _Chi(ctx)
+        a = ctx.real("a0", 0, 7)
+        ctx.assume((a > 0) & (a < hi))
+        x = _struct(ctx, list(rp.parameters), 1)
+        x["a"][0] = a
+        xp = _struct(ctx, list(rp.prime_parameters), 1)
+        x, xp, lj = rp.reparameterise(x, xp, _zeros(ctx, 1))
+        r = rp.chi.drawn[0]
+        if kind == "sine" and ctx.mode == "sym":
+            ctx.axiom(snp.sin(a) > 0)    # sin is positive on (0, pi)
+        lp = rp.x_prime_log_prior(xp)
+        lp = lp[0] if np.ndim(lp) else lp
+        # original prior of (angle, auxiliary radius) minus the reported log-Jacobian
+        log_chi2 = snp.log(r) - r * r / 2          # chi distribution with 2 degrees of freedom
+        if kind == "sine":
+            want = snp.log(snp.sin(a) / 2) + log_chi2 - lj[0]
+        else:
+            want = -snp.log(2 * pi) + log_chi2 - lj[0]
+            # the code's constant is -log(k) with k = scale * pi: the property allows a point-independent constant
+            want = want + (snp.log(2 * pi) - snp.log(rp._k))
+        if getattr(ctx, "mutant", None) == "prior":
+            want = want + r
+        ctx.prove_eq(lp, want, "R4 prime prior = original prior / Jacobian (up to a point-independent constant)")
+        ctx.cover("end")
+    return body
+
+
 def make_to_cartesian(mode):
     def body(ctx):
         from nessai.reparameterisations.angle import ToCartesian
@@ -546,6 +585,8 @@ def units(tier):
     us.append(Unit("null", make_null(), MODS, opts, expect_cover=["end"], twin_runs=5, witness_every=1, nproc=1))
     for v in ("zero_2pi", "sym_pi", "auto_scale"):
         us.append(Unit(f"angle[{v}]", make_angle(v), MODS, opts, expect_cover=["end"], mutants=["r1", "r3"] if v == "zero_2pi" else [], twin_runs=15, witness_every=2, nproc=1, time_budget_s=600))
+    for kind in ("sine", "uniform"):
+        us.append(Unit(f"angle_prime_prior[{kind}]", make_angle_prior(kind), MODS, dict(opts, exp_axioms="full"), expect_cover=["end"], mutants=["prior"] if kind == "sine" else [], twin_runs=10, witness_every=1, nproc=1, time_budget_s=600))
     us.append(Unit("angle[auxiliary_radius]", make_angle_aux_radius(), MODS, opts, expect_cover=["end"], twin_runs=10, witness_every=2, nproc=1))
     # ToCartesian and AnglePair harnesses exist (make_to_cartesian / make_angle_pair) but are not registered:
     # with the ground trigonometric axioms z3 returns `unknown` / spurious models on them within 10 minutes (see DESIGN.md).
